@@ -946,10 +946,14 @@ func c09Random(r *verifh.Rand, tr *verifh.T) verifh.Case {
 		switch w := r.Intn(112); {
 		case w < 20:
 			size := 1 + r.Intn(3)
+			data := r.Bytes(1 + r.Intn(3))
 			if r.Chance(1, 8) {
 				size = mcap + 1 // does not fit in memory: falls back to disk
+			} else if r.Chance(1, 6) {
+				size, data = 0, nil // an empty blob: flushed (created and completed on disk) like any other
+				tr.Count("random_create_empty", 1)
 			}
-			o = split(c09Op("create", k, fmt.Sprint(size), verifh.Hex(r.Bytes(1+r.Intn(3)))))
+			o = split(c09Op("create", k, fmt.Sprint(size), verifh.Hex(data)))
 		case w < 38:
 			o = split(c09Op("complete", k))
 		case w < 50:
@@ -1116,6 +1120,10 @@ func c09Scripts() []c09Script {
 		{std, [][]string{ // a suffix that no metadata type is registered for
 			c09Op("create", "k0", "1", "xa1"), c09Op("setmd", "k0", "any", "m0", "x01"), c09Op("complete", "k0"),
 			c09Op("delmd", "k0", "any", "u0"), c09Op("setmd", "k0", "any", "m0", "x02"), c09Op("getmd", "k0", "any", "u0"),
+		}},
+		{std, [][]string{ // an empty blob: flushed like any other; the blob completed after it squeezes it out of memory
+			c09Op("create", "k0", "0", "x"), c09Op("setmd", "k0", "any", "m0", "x01"), c09Op("complete", "k0"),
+			c09Op("create", "k1", "2", "xb1b2"), c09Op("complete", "k1"), c09Op("setmd", "k0", "any", "m1", "x02"),
 		}},
 		{[]string{"mcap=4", "dcap=3"}, [][]string{ // the flush of k1 evicts the flushed k0 from disk while k0 has dirty metadata in memory
 			c09Op("create", "k0", "2", "xa1a2"), c09Op("complete", "k0"), {"drain"}, c09Op("setmd", "k0", "any", "m0", "x01"),
@@ -1305,7 +1313,7 @@ func c09FreeRun(seed, writers, iters, mcap int) [][]string {
 			r := verifh.NewRand(uint64(seed), fmt.Sprintf("free-%d", w))
 			var mine []*rec
 			for it := 0; it < iters && !stop.Load(); it++ {
-				rc := &rec{key: fmt.Sprintf("%02x%06x", w, it), data: r.Bytes(1 + r.Intn(3)), md: map[string][]byte{}}
+				rc := &rec{key: fmt.Sprintf("%02x%06x", w, it), data: r.Bytes(r.Intn(4)), md: map[string][]byte{}} // also empty blobs
 				size := uint64(len(rc.data))
 				if r.Chance(1, 16) {
 					size = uint64(mcap + 1) // straight to disk
